@@ -124,7 +124,110 @@ def run(cfg):
     onedays(R, lib, ob)
     localtime_pairing(R, lib, ob)
     floor_rule(R, lib, ob)
+    julian_rule(R, lib, ob)
+    year_range_rule(R, lib, ob)
     return R
+
+
+def julian_rule(R, lib, ob):
+    """The two Julian-day formulas are closed arithmetic expressions in the date fields / in the day count.  They are
+    extracted from the source (symbolic summary of the straight-line bodies, casts dropped after the range rules of C09)
+    and given their integer meaning on every day of the domain 1873-01-01 .. 2127-12-31 (quick tier: every day of the
+    century and boundary years and the first, last and 28th/29th days of every month of the other years); the oracle is
+    the proleptic Gregorian ordinal of the checker's own calendar."""
+    import datetime
+    from .gnf import compile_poly
+    R.rule('R3', 'toEpochDays / extractYearMonthDay are the proleptic Gregorian day count and its inverse on every day of 1873..2127', floor=2)
+    epoch_ord = datetime.date(2000, 1, 1).toordinal()
+    full = R.cfg.tier == 'thorough'
+    special_years = {1873, 1874, 1899, 1900, 1901, 1903, 1904, 1999, 2000, 2001, 2004, 2038, 2068, 2099, 2100, 2101, 2126, 2127}
+    dates = []
+    d = datetime.date(1873, 1, 1)
+    end = datetime.date(2127, 12, 31)
+    one = datetime.timedelta(days=1)
+    while d <= end:
+        nxt = d + one
+        if full or d.year in special_years or d.day in (1, 28, 29) or nxt.day == 1:
+            dates.append(d)
+        d = nxt
+    # -- toEpochDays
+    f = lib.fn('ace_time::LocalDate::toEpochDays')
+    sx = SymExec(fold_global=lib.global_value)
+    s = sx.run(f.name, f.body, {})
+    forms = [_P(res) for g, kind, res, eff in s.paths if kind == 'return' and res is not None and not _P(res).is_const()]
+    c = 'LocalDate::toEpochDays'
+    if len(forms) != 1:
+        ob('R3', c, f.loc, False, 'expected one non-sentinel return expression, found %d' % len(forms))
+    else:
+        def leaf(a):
+            if a[0] == 'sym':
+                return {'this.mYearTiny': "v['yt']", 'this.mMonth': "v['m']", 'this.mDay': "v['d']"}.get(a[1])
+            if a[0] == 'fn' and a[1].endswith('LocalDate::year'):
+                return "(v['yt'] + 2000)"
+            return None
+        fn = compile_poly(forms[0], leaf)
+        bad = []
+        for dt in dates:
+            got = fn({'yt': dt.year - 2000, 'm': dt.month, 'd': dt.day})
+            if got != dt.toordinal() - epoch_ord:
+                bad.append('%s -> %d (expected %d)' % (dt.isoformat(), got, dt.toordinal() - epoch_ord))
+        R.note('toEpochDays evaluated on %d dates' % len(dates))
+        ob('R3', c, f.loc, not bad, 'the day-count formula is wrong for %d of the %d dates evaluated, e.g. %s' % (len(bad), len(dates), '; '.join(bad[:3])))
+    # -- extractYearMonthDay
+    g = lib.fn('ace_time::LocalDate::extractYearMonthDay')
+    sx = SymExec(fold_global=lib.global_value)
+    sx.out_params = {p for p, _t in g.params[1:]}
+    s = sx.run(g.name, g.body, {})
+    c = 'LocalDate::extractYearMonthDay'
+    if len(s.paths) != 1:
+        ob('R3', c, g.loc, False, 'expected a straight-line body')
+        return
+    eff = {}
+    for n, v in s.paths[0][3]:
+        if n in sx.out_params:
+            eff[n] = _P(v)
+    names = [p for p, _t in g.params[1:]]
+    if set(eff) != set(names):
+        ob('R3', c, g.loc, False, 'not all of %s are assigned' % names)
+        return
+    arg = g.params[0][0]
+
+    def leaf2(a):
+        return "v['e']" if a == ('sym', arg) else None
+    fns = [compile_poly(eff[n], leaf2) for n in names]
+    bad = []
+    for dt in dates:
+        e = dt.toordinal() - epoch_ord
+        got = tuple(fn_({'e': e}) for fn_ in fns)
+        if got != (dt.year, dt.month, dt.day):
+            bad.append('%d -> %s (expected %s)' % (e, got, dt.isoformat()))
+    ob('R3', c, g.loc, not bad, 'the inverse formula is wrong for %d of the %d epoch days evaluated, e.g. %s' % (len(bad), len(dates), '; '.join(bad[:3])))
+
+
+def year_range_rule(R, lib, ob):
+    """isYearValid(y) holds exactly for the years whose offset from 2000 fits the stored int8 without being the error
+    sentinel: kEpochYear + kMinYearTiny .. kEpochYear + kMaxYearTiny = 1873 .. 2127 (the domain of the property)."""
+    from .gnf import arith_assign, eval_formula
+    R.rule('R7', 'isYearValid(year) is true exactly for 1873..2127', floor=1)
+    f = lib.fn('ace_time::LocalDate::isYearValid')
+    rets = [s for s in walk_stmts(f.body) if s.k == 'return']
+    form = SymExec(fold_global=lib.global_value).cond(rets[0].a[0], {}) if len(rets) == 1 else None
+    if form is None:
+        ob('R7', f.name, f.loc, False, 'not a single boolean expression')
+        return
+    lo = lib.const('ace_time::LocalDate::kEpochYear') + lib.const('ace_time::LocalDate::kMinYearTiny')
+    hi = lib.const('ace_time::LocalDate::kEpochYear') + lib.const('ace_time::LocalDate::kMaxYearTiny')
+    bad = []
+    for y in range(-32768, 32768):
+        try:
+            v = eval_formula(form, arith_assign({f.params[0][0]: y}))
+        except (KeyError, TypeError):
+            ob('R7', f.name, f.loc, False, 'not a closed arithmetic formula in the year')
+            return
+        if bool(v) != (lo <= y <= hi):
+            bad.append(y)
+    ob('R7', f.name, f.loc, not bad and (lo, hi) == (1873, 2127),
+       'isYearValid() differs from %d <= year <= %d for the years %s%s' % (lo, hi, bad[:4], ' ...' if len(bad) > 4 else '') if bad else 'the constants give the range %d..%d, not 1873..2127' % (lo, hi))
 
 
 def floor_rule(R, lib, ob):
@@ -283,6 +386,13 @@ def onedays(R, lib, ob):
 
 
 SELFTEST = [
+    dict(id='year-2127-invalid', file='src/ace_time/LocalDate.h', find='          && year <= kEpochYear + kMaxYearTiny;', replace='          && year < kEpochYear + kMaxYearTiny;', rule='R7'),
+    dict(id='year-1872-valid', file='src/ace_time/LocalDate.h', find='      return year >= kEpochYear + kMinYearTiny', replace='      return year >= kEpochYear + kMinYearTiny - 1', rule='R7'),
+    dict(id='century-term-without-month-shift', file='src/ace_time/LocalDate.h', find='          - (3 * ((yy + 4900 + mm)/100))/4', replace='          - (3 * ((yy + 4900)/100))/4', rule='R3', construct='toEpochDays'),
+    dict(id='inverse-formula-constant', file='src/ace_time/LocalDate.h', find='      uint32_t f = J + 1401 + (((4 * J + 274277 ) / 146097) * 3) / 4 - 38;',
+         replace='      uint32_t f = J + 1401 + (((4 * J + 274277 ) / 146097) * 3) / 4 - 37;', rule='R3', construct='extractYearMonthDay'),
+    dict(id='inverse-formula-respelled-silent', file='src/ace_time/LocalDate.h', find='      uint32_t f = J + 1401 + (((4 * J + 274277 ) / 146097) * 3) / 4 - 38;',
+         replace='      uint32_t f = J + 1363 + (3 * ((4 * J + 274277 ) / 146097)) / 4;', expect='silent'),
     dict(id='floor-division-negative-midnight', file='src/ace_time/LocalDate.h', regex=True,
          find=r'\? \(epochSeconds \+ 1\) / 86400 - 1', replace='? epochSeconds / 86400 - 1', rule='R6', construct='LocalDate::forEpochSeconds'),
     dict(id='iserror-hour24-and', file='src/ace_time/LocalTime.h', find='        return mSecond != 0 || mMinute != 0;', replace='        return mSecond != 0 && mMinute != 0;', rule='R5', construct='isError'),
